@@ -619,7 +619,10 @@ class Check:
         ev['assumptions'] += self.extra_evidence.get('assumes', [])
         os.makedirs(os.path.join(VERIF, 'evidence'), exist_ok=True)
         if ev['coverage']['evaluations'] >= 1 and ev['coverage']['distinct_nontrivial'] >= 2 or self.violations:
-            json.dump(ev, open(os.path.join(VERIF, 'evidence', self.prop + '.json'), 'w'), indent=1)
+            # a run narrowed with VERIF_ONLY (debugging aid) is not the registered check: keep its record out of evidence/
+            dest = os.path.join(VERIF, 'build', self.prop, 'evidence_partial.json') if os.environ.get('VERIF_ONLY') else os.path.join(VERIF, 'evidence', self.prop + '.json')
+            os.makedirs(os.path.dirname(dest), exist_ok=True)
+            json.dump(ev, open(dest, 'w'), indent=1)
         seen = set()
         for k, w in self.known:
             key = k.get('what')
